@@ -16,6 +16,8 @@ TRUSTED = [
     "of the two seam implementations, of UtestShell::runOneTest and of TestRegistry::runAllTests",
     "real-process part calls the tree's own PlatformSpecificFork/WaitPid implementations (saved seam pointers), incl. a scenario "
     "with a 1-2 ms POSIX timer signal handled without SA_RESTART while a child sleeps 400-500 ms",
+    "a scenario in which the tree's real fork fails with EAGAIN (case process: setuid 65534 + RLIMIT_NPROC 0; skipped with "
+    "`forkfail unsupported` where the environment cannot produce the failure)",
     "fork/waitpid/kill, signal delivery and the encoding of the status word are the kernel's and glibc's: the theorems cover "
     "every sequence of results the parent can be given, part (b) of the harness observes real children",
     "the textbook reading of a status word (Spec.classify) used by theorems and oracle",
@@ -230,6 +232,22 @@ def real_case(rng, dying):
     return ops
 
 
+def forkfail_case(rng, i):
+    """every fork of the tree's own PlatformSpecificFork implementation fails with EAGAIN: one 'fork failed' failure
+    per real test, every test started, the runner returns (a fork retried forever is a hang -> deadline)"""
+    n = rng.choice([2, 3, 4])
+    ops = ["tests %d" % n, "nproc0"] + group_lines(rng, n)
+    if i % 3 == 1:
+        ops.append("cli")
+    for t in range(n):
+        if t and rng.random() < 0.25:
+            ops.append("w %d st %x" % (t, rng.choice([0, st_sig(9), st_exit(1)])))       # stubbed seam: unaffected
+        else:
+            ops.append("real %d %s %s" % (t, rng.choice(PHASES), " ".join("%s %d" % a for a in rand_action(rng))))
+    ops.append("run")
+    return ops
+
+
 def ticked_case(rng, i):
     """the parent's wait for a sleeping child is interrupted every 1-2 ms for 400-500 ms (>= 200 deliveries where
     bound+2 = 32 are enough to give up); controls: a child that ends after a few interruptions only must NOT be lost"""
@@ -347,6 +365,9 @@ def generate(rng, tier):
     # real waitpid seam interrupted by a periodic signal whose handler has no SA_RESTART, while a child sleeps
     for i in range(4 if quick else 24):
         out.append(("ticked", ticked_case(rng, i)))
+    # the REAL fork seam fails: the case process drops root and sets RLIMIT_NPROC to 0
+    for i in range(3 if quick else 16):
+        out.append(("forkfail", forkfail_case(rng, i)))
     # mixed registries: stubbed and real tests side by side
     for _ in range(20 if quick else 300):
         n = rng.choice([2, 3, 4, 5])
@@ -455,6 +476,8 @@ def observe(r, rep):
         elif l.startswith("ticks "):
             n = int(l.split()[2])
             rep.count("real_wait_interrupted_by_timer." + ("0-9" if n < 10 else "10-31" if n < 32 else "32-99" if n < 100 else "100+"))
+        elif l.startswith("forkfail "):
+            rep.count("real_fork_failure_scenario." + l.split()[1])
         elif l.startswith("inrunner "):
             rep.count("test_executed_inside_runner")
         elif l.startswith("exitcode "):
